@@ -322,6 +322,21 @@ impl<'a, F: IVP> SolOut for DefaultSolOut<'a, F> {
                     // Check for terminal event
                     if let Some(limit) = config.terminal_count {
                         if self.event_hits[i] >= limit {
+                            // A requested time may have been reported with the previous step although it lies up to the
+                            // time tolerance beyond that step's end. If the event is located before it, it is beyond the
+                            // stop and is taken back (in t_eval mode every sample is a requested time)
+                            if self.t_eval.is_some() {
+                                while let Some(&last) = self.t.last() {
+                                    let beyond = if forward { last > event_t } else { last < event_t };
+                                    if !beyond || self.next_idx == 0 {
+                                        break;
+                                    }
+                                    self.t.pop();
+                                    self.y.pop();
+                                    self.next_idx -= 1;
+                                }
+                            }
+
                             // Requested output times of this step that are not beyond the event are still due
                             if let (Some(t_eval), Some(interp)) = (self.t_eval.as_ref(), interpolant) {
                                 while self.next_idx < t_eval.len() {
